@@ -462,6 +462,196 @@ theorem viewOk_view (expr now : Nat) {m : OMap} (h : WF m) (hk : Keyed m) :
     obtain ⟨k, r, hg, he, hpr⟩ := (mem_view_iff expr now h p).mp hp
     exact ⟨(k, r), by simp [liveOf, GMap.mem_of_get hg, he], hpr⟩
 
+/-! ### build hooks of the observation -/
+
+theorem find_wid_some {view : List Proposal} {k : String} {p : Proposal}
+    (h : view.find? (fun p => p.workID == k) = some p) : p ∈ view ∧ p.workID = k :=
+  ⟨List.mem_of_find?_eq_some h, by simpa using List.find?_some h⟩
+
+theorem wid_inj : ∀ {view : List Proposal}, (view.map (·.workID)).Nodup → ∀ {p p' : Proposal},
+    p ∈ view → p' ∈ view → p.workID = p'.workID → p = p'
+  | [], _, _, _, hp, _, _ => by simp at hp
+  | x :: xs, hnd, p, p', hp, hp', hw => by
+    simp only [List.map_cons, List.nodup_cons, List.mem_map, not_exists, not_and] at hnd
+    rcases List.mem_cons.mp hp with rfl | h1 <;> rcases List.mem_cons.mp hp' with rfl | h2
+    · rfl
+    · exact absurd hw.symm (hnd.1 p' h2)
+    · exact absurd hw (hnd.1 p h1)
+    · exact wid_inj hnd.2 h1 h2 hw
+
+theorem mem_view_of_mem_shuffleBy {order : List String} {view : List Proposal} {p : Proposal}
+    (h : p ∈ shuffleBy order view) : p ∈ view := by
+  simp only [shuffleBy, List.mem_append, List.mem_filterMap, List.mem_filter] at h
+  rcases h with ⟨k, _, hk⟩ | ⟨h, _⟩
+  · exact (find_wid_some hk).1
+  · exact h
+
+/-- the shuffle loses nothing -/
+theorem mem_shuffleBy_of_mem {order : List String} {view : List Proposal} (hnd : (view.map (·.workID)).Nodup)
+    {p : Proposal} (h : p ∈ view) : p ∈ shuffleBy order view := by
+  simp only [shuffleBy, List.mem_append, List.mem_filterMap, List.mem_filter]
+  by_cases hc : order.contains p.workID = true
+  · left
+    refine ⟨p.workID, by simpa using hc, ?_⟩
+    cases hf : view.find? (fun q => q.workID == p.workID) with
+    | none =>
+      have := List.find?_eq_none.mp hf p h
+      simp at this
+    | some p' =>
+      obtain ⟨hm, hw⟩ := find_wid_some hf
+      rw [wid_inj hnd hm h hw]
+  · right; exact ⟨h, by simpa using hc⟩
+
+private theorem map_wid_picks (order : List String) (view : List Proposal) :
+    (order.filterMap (fun k => view.find? (fun p => p.workID == k))).map (·.workID) =
+      order.filter (fun k => (view.find? (fun p => p.workID == k)).isSome) := by
+  induction order with
+  | nil => rfl
+  | cons k ks ih =>
+    cases hf : view.find? (fun p => p.workID == k) with
+    | none => simp [hf, ih]
+    | some p => simp [hf, ih, (find_wid_some hf).2]
+
+/-- … and repeats nothing -/
+theorem shuffleBy_nodup {order : List String} {view : List Proposal} (ho : order.Nodup)
+    (hnd : (view.map (·.workID)).Nodup) : ((shuffleBy order view).map (·.workID)).Nodup := by
+  simp only [shuffleBy, List.map_append, List.nodup_append]
+  refine ⟨?_, ?_, ?_⟩
+  · rw [map_wid_picks]; exact List.Nodup.sublist List.filter_sublist ho
+  · exact List.Nodup.sublist (List.filter_sublist.map _) hnd
+  · intro a ha b hb hab
+    rw [map_wid_picks] at ha
+    have ha' : a ∈ order := (List.mem_filter.mp ha).1
+    obtain ⟨q, hq, hqb⟩ := List.mem_map.mp hb
+    have := (List.mem_filter.mp hq).2
+    simp only [Bool.not_eq_true', List.contains_eq_mem, decide_eq_false_iff_not] at this
+    exact this (hqb ▸ hab ▸ ha')
+
+theorem shuffleBy_nil (order : List String) : shuffleBy order [] = [] := by
+  simp only [shuffleBy, List.find?_nil, List.filter_nil, List.append_nil]
+  induction order with
+  | nil => rfl
+  | cons k ks ih => simp [List.filterMap_cons, ih]
+
+theorem cutTo_sublist (limit : Nat) (l : List Proposal) : (cutTo limit l).Sublist l := by
+  unfold cutTo; split
+  · exact List.take_sublist _ _
+  · exact List.Sublist.refl _
+
+theorem cutTo_length (limit : Nat) (l : List Proposal) :
+    (cutTo limit l).length ≤ limit ∧ ((cutTo limit l).length = limit ∨ cutTo limit l = l) := by
+  unfold cutTo; split
+  · rename_i h; simp only [List.length_take]; omega
+  · rename_i h; exact ⟨by omega, Or.inr rfl⟩
+
+theorem observeHook_nil (limit : Nat) (order : List String) : observeHook limit order [] = [] := by
+  simp [observeHook, shuffleBy_nil, cutTo]
+
+/-- what a build hook adds to the observation satisfies the Spec's observation clause: unexpired pending
+proposals only, none twice, at most `limit`, all of them when they fit — for every shuffle -/
+theorem obsOk_observe (expr now limit : Nat) (order : List String) (ho : order.Nodup) {m : OMap}
+    (h : WF m) (hk : Keyed m) :
+    obsOk limit (liveOf expr now m.values) (observeHook limit order (m.view expr now).1) = true := by
+  have hvnd : (((m.view expr now).1).map (·.workID)).Nodup := by
+    rw [view_eq expr now h]
+    simp only [map_workID_filterMap hk]
+    exact List.Nodup.sublist List.filter_sublist (sortStrings_nodup h.keysNodup)
+  have hsub := cutTo_sublist limit (shuffleBy order (m.view expr now).1)
+  obtain ⟨hlen, hfull⟩ := cutTo_length limit (shuffleBy order (m.view expr now).1)
+  simp only [obsOk, observeHook, Bool.and_eq_true, Bool.or_eq_true, List.all_eq_true,
+    List.any_eq_true, List.contains_iff_mem, beq_iff_eq]
+  refine ⟨⟨⟨?_, ?_⟩, decide_eq_true hlen⟩, ?_⟩
+  · exact decide_eq_true (List.Nodup.sublist (hsub.map _) (shuffleBy_nodup ho hvnd))
+  · intro p hp
+    obtain ⟨k, r, hg, he, hpr⟩ := (mem_view_iff expr now h p).mp (mem_view_of_mem_shuffleBy (hsub.subset hp))
+    exact ⟨(k, r), by simp [liveOf, GMap.mem_of_get hg, he], hpr⟩
+  · rcases hfull with hl | he
+    · exact Or.inl (decide_eq_true hl)
+    · right
+      intro e hel
+      rw [he]
+      simp only [liveOf, List.mem_filter, Bool.not_eq_true'] at hel
+      exact mem_shuffleBy_of_mem hvnd
+        ((mem_view_iff expr now h _).mpr ⟨e.1, e.2, GMap.get_of_mem h.valsKN hel.1, hel.2, rfl⟩)
+
+/-- picking, in the order of their work ids, proposals that the view holds gives them back -/
+theorem picks_self {view : List Proposal} (hv : (view.map (·.workID)).Nodup) : ∀ {out : List Proposal},
+    (∀ p ∈ out, p ∈ view) →
+    (out.map (·.workID)).filterMap (fun k => view.find? (fun p => p.workID == k)) = out
+  | [], _ => rfl
+  | p :: ps, hsub => by
+    have hp : p ∈ view := hsub p (by simp)
+    have hf : view.find? (fun q => q.workID == p.workID) = some p := by
+      cases hf : view.find? (fun q => q.workID == p.workID) with
+      | none =>
+        have := List.find?_eq_none.mp hf p hp
+        simp at this
+      | some p' =>
+        obtain ⟨hm, hw⟩ := find_wid_some hf
+        rw [wid_inj hv hm hp hw]
+    simp only [List.map_cons, List.filterMap_cons, hf]
+    rw [picks_self hv (fun q hq => hsub q (by simp [hq]))]
+
+/-- the shuffle a build hook took is recoverable from what it added to the observation: run with "the
+work ids it returned, in its order" the model returns the same proposals (and the state after the view does
+not depend on the shuffle at all) -/
+theorem observeHook_recovered (limit : Nat) (o1 : List String) (view : List Proposal)
+    (hv : (view.map (·.workID)).Nodup) :
+    observeHook limit ((observeHook limit o1 view).map (·.workID)) view = observeHook limit o1 view := by
+  have hsubl := cutTo_sublist limit (shuffleBy o1 view)
+  have hmem : ∀ p ∈ observeHook limit o1 view, p ∈ view :=
+    fun p hp => mem_view_of_mem_shuffleBy (hsubl.subset hp)
+  generalize hout : observeHook limit o1 view = out at hmem
+  have hpk := picks_self hv hmem
+  have hsh : shuffleBy (out.map (·.workID)) view =
+      out ++ view.filter (fun p => !(out.map (·.workID)).contains p.workID) := by
+    simp only [shuffleBy, hpk]
+  unfold observeHook at hout ⊢
+  rw [hsh]
+  unfold cutTo at hout
+  split at hout
+  · rename_i hlong
+    have hlen : out.length = limit := by rw [← hout, List.length_take]; omega
+    unfold cutTo
+    split
+    · exact List.take_left' hlen
+    · rename_i hns
+      simp only [List.length_append] at hns
+      have h0 : (view.filter (fun p => !(out.map (·.workID)).contains p.workID)).length = 0 := by omega
+      rw [List.eq_nil_of_length_eq_zero h0, List.append_nil]
+  · rename_i hshort
+    have hrest : view.filter (fun p => !(out.map (·.workID)).contains p.workID) = [] := by
+      apply List.filter_eq_nil_iff.mpr
+      intro p hp
+      have hpo : p ∈ out := by rw [← hout]; exact mem_shuffleBy_of_mem hv hp
+      simp only [Bool.not_eq_true', List.contains_eq_mem, decide_eq_false_iff_not, List.mem_map]
+      exact fun hno => hno ⟨p, hpo, rfl⟩
+    rw [hrest, List.append_nil]
+    rw [hout] at hshort
+    unfold cutTo
+    rw [if_neg hshort]
+
+/-- the filterer's test on the viewed proposals is the test on the live records -/
+theorem any_view_eq_any_live (expr now : Nat) {m : OMap} (h : WF m) (w : String) :
+    ((m.view expr now).1).any (fun v => v.workID == w) =
+      (liveOf expr now m.values).any (fun e => e.2.proposal.workID == w) := by
+  rw [Bool.eq_iff_iff]
+  simp only [List.any_eq_true, beq_iff_eq]
+  constructor
+  · rintro ⟨p, hp, hw⟩
+    obtain ⟨k, r, hg, he, hpr⟩ := (mem_view_iff expr now h p).mp hp
+    exact ⟨(k, r), by simp [liveOf, GMap.mem_of_get hg, he], by simpa [hpr] using hw⟩
+  · rintro ⟨e, hel, hw⟩
+    simp only [liveOf, List.mem_filter, Bool.not_eq_true'] at hel
+    exact ⟨e.2.proposal, (mem_view_iff expr now h _).mpr ⟨e.1, e.2, GMap.get_of_mem h.valsKN hel.1, hel.2, rfl⟩, hw⟩
+
+theorem filterOk_filterer (expr now : Nat) (ps : List Proposal) {m : OMap} (h : WF m) :
+    filterOk (liveOf expr now m.values) ps (filterPayloads (m.view expr now).1 ps) = true := by
+  simp only [filterOk, filterPayloads, beq_iff_eq]
+  apply List.filter_congr
+  intro p _
+  rw [any_view_eq_any_live expr now h]
+
 /-! ### metadata store: invariant and abstraction -/
 
 structure WFS (s : MStore) : Prop where
@@ -516,6 +706,12 @@ theorem WFS_view (t now : Nat) {s : MStore} (h : WFS s) : WFS (s.viewProposals t
     · exact ⟨WF_view _ _ h.cond, h.log, Keyed_view _ _ h.cond h.condK, h.logK⟩
     · exact h
 
+theorem WFS_observe (t limit now : Nat) (order : List String) {s : MStore} (h : WFS s) :
+    WFS (s.observe t limit now order).2 := WFS_view t now h
+
+theorem WFS_filterer (t now : Nat) (ps : List Proposal) {s : MStore} (h : WFS s) :
+    WFS (s.filterer t now ps).2 := WFS_view t now h
+
 /-- the remove hook is one `remove` per surfaced proposal, in order -/
 theorem removeHook_eq (tg : String → Nat) (sf : List (List Proposal)) (s : MStore) :
     removeFromMetadataHook tg sf s = sf.flatten.foldl (MStore.remove1 tg) s := by
@@ -538,6 +734,19 @@ theorem addHook_eq (now : Nat) (sf : List (List Proposal)) (q : Queue) :
   induction sf generalizing q with
   | nil => rfl
   | cons round sf ih => simp only [List.foldl_cons, List.flatten_cons, List.foldl_append]; exact ih _
+
+/-- iteration orders of a history visit no key twice (a Go map range does not, a shuffle\nis a permutation) -/
+def opOrder : Op → List String
+  | .deq _ _ o => o
+  | .tick _ _ o _ => o
+  | .observe _ _ o => o
+  | _ => []
+
+def OrdersNodup (ops : List Op) : Prop := ∀ op ∈ ops, (opOrder op).Nodup
+
+theorem OrdersNodup_cons {op : Op} {ops : List Op} (h : OrdersNodup (op :: ops)) :
+    OrdersNodup [op] ∧ OrdersNodup ops :=
+  ⟨fun o ho => h o (by simp at ho; simp [ho]), fun o ho => h o (by simp [ho])⟩
 
 /-- the Spec's abstract state is the model state without the key slices -/
 def Sim (st : St) (s : SSt) : Prop :=
@@ -583,7 +792,8 @@ theorem sim_remove (tg : String → Nat) (ps : List Proposal) (ms : MStore) (s :
 
 /-- one step: the abstraction is kept, the view verdict on the model's own output is `true`,
 and the Spec logs exactly the model's hand-outs -/
-theorem sim_step (tg : String → Nat) {st : St} {s : SSt} (hw : WFS st.ms) (hs : Sim st s) (op : Op) :
+theorem sim_step (tg : String → Nat) {st : St} {s : SSt} (hw : WFS st.ms) (hs : Sim st s) (op : Op)
+    (ho : (opOrder op).Nodup) :
     Sim (step tg st op) (sStep tg s op ((stepOut tg st op).getD [])).1 ∧
     (sStep tg s op ((stepOut tg st op).getD [])).2.1 = true ∧
     (sStep tg s op ((stepOut tg st op).getD [])).2.2 = opEvents tg st op ∧
@@ -626,6 +836,48 @@ theorem sim_step (tg : String → Nat) {st : St} {s : SSt} (hw : WFS st.ms) (hs 
       split
       · rfl
       · split <;> rfl
+  | observe t limit order =>
+    have hnd : order.Nodup := ho
+    refine ⟨?_, ?_, ?_, WFS_observe t limit st.now order hw⟩
+    · simp only [sStep, step, stepOut, MStore.observe, MStore.viewProposals, Option.getD_some]
+      split
+      · refine ⟨hc, ?_, hq, hn⟩
+        simp [view_eq _ _ hw.log, hl, hn]
+      · split
+        · refine ⟨?_, hl, hq, hn⟩
+          simp [view_eq _ _ hw.cond, hc, hn]
+        · exact ⟨hc, hl, hq, hn⟩
+    · simp only [sStep, stepOut, MStore.observe, MStore.viewProposals, Option.getD_some]
+      split
+      · simp only [hl, hn]; exact obsOk_observe _ _ limit order hnd hw.log hw.logK
+      · split
+        · simp only [hc, hn]; exact obsOk_observe _ _ limit order hnd hw.cond hw.condK
+        · simp [observeHook_nil]
+    · simp only [sStep, opEvents]
+      split
+      · rfl
+      · split <;> rfl
+  | svc b => exact ⟨⟨hc, hl, hq, hn⟩, rfl, rfl, hw⟩
+  | filter t ps =>
+    refine ⟨?_, ?_, ?_, WFS_filterer t st.now ps hw⟩
+    · simp only [sStep, step, stepOut, MStore.filterer, MStore.viewProposals, Option.getD_some]
+      split
+      · refine ⟨hc, ?_, hq, hn⟩
+        simp [view_eq _ _ hw.log, hl, hn]
+      · split
+        · refine ⟨?_, hl, hq, hn⟩
+          simp [view_eq _ _ hw.cond, hc, hn]
+        · exact ⟨hc, hl, hq, hn⟩
+    · simp only [sStep, stepOut, MStore.filterer, MStore.viewProposals, Option.getD_some]
+      split
+      · simp only [hl, hn]; exact filterOk_filterer _ _ ps hw.log
+      · split
+        · simp only [hc, hn]; exact filterOk_filterer _ _ ps hw.cond
+        · simp [filterPayloads]
+    · simp only [sStep, opEvents]
+      split
+      · rfl
+      · split <;> rfl
   | adv d => exact ⟨⟨hc, hl, hq, by simp [sStep, step, hn]⟩, rfl, rfl, hw⟩
   | enq ps => exact ⟨⟨hc, hl, by simp [sStep, step, hq, hn], hn⟩, rfl, rfl, hw⟩
   | deq t n order =>
@@ -647,18 +899,20 @@ theorem sim_step (tg : String → Nat) {st : St} {s : SSt} (hw : WFS st.ms) (hs 
 
 /-- replaying the model's own outputs: every view verdict holds and the Spec's log is the
 model's hand-out log -/
-theorem sRun_model (tg : String → Nat) (ops : List Op) {st : St} {s : SSt} (hw : WFS st.ms) (hs : Sim st s) :
+theorem sRun_model (tg : String → Nat) (ops : List Op) {st : St} {s : SSt} (hw : WFS st.ms) (hs : Sim st s)
+    (hn : OrdersNodup ops) :
     sRun tg ops (run tg ops st) s = (true, handouts tg ops st) := by
   induction ops generalizing st s with
   | nil => rfl
   | cons op ops ih =>
-    obtain ⟨h1, h2, h3, h4⟩ := sim_step tg hw hs op
+    obtain ⟨hn1, hn2⟩ := OrdersNodup_cons hn
+    obtain ⟨h1, h2, h3, h4⟩ := sim_step tg hw hs op (hn1 op (by simp))
     have hout : ((run tg (op :: ops) st).head?.join.getD []) = (stepOut tg st op).getD [] := by
       simp only [run, List.head?_cons]
       cases stepOut tg st op <;> rfl
     simp only [sRun, hout]
     have htail : (run tg (op :: ops) st).tail = run tg ops (step tg st op) := rfl
-    rw [htail, ih h4 h1, h2, h3]
+    rw [htail, ih h4 h1 hn2, h2, h3]
     simp [handouts]
 
 /-! ### proposal queue -/
@@ -1059,14 +1313,6 @@ theorem deq_step (tg : String → Nat) (t n now lo : Nat) (order : List String) 
     have := hq _ _ hg
     exact ⟨this.2.1, this.2.2, rfl⟩
 
-/-- iteration orders of a history visit no key twice (a Go map range does not) -/
-def opOrder : Op → List String
-  | .deq _ _ o => o
-  | .tick _ _ o _ => o
-  | _ => []
-
-def OrdersNodup (ops : List Op) : Prop := ∀ op ∈ ops, (opOrder op).Nodup
-
 /-- total time a history lets pass -/
 def duration : List Op → Nat
   | [] => 0
@@ -1088,6 +1334,9 @@ theorem q_step (tg : String → Nat) (lo : Nat) (st : St) (op : Op) (hop : Order
   | add ps => simpa [step, opEvents] using ⟨hq, hcov, hsep⟩
   | remove ps => simpa [step, opEvents] using ⟨hq, hcov, hsep⟩
   | view t => simpa [step, opEvents] using ⟨hq, hcov, hsep⟩
+  | observe t limit order => simpa [step, opEvents] using ⟨hq, hcov, hsep⟩
+  | svc b => simpa [step, opEvents] using ⟨hq, hcov, hsep⟩
+  | filter t ps => simpa [step, opEvents] using ⟨hq, hcov, hsep⟩
   | adv d =>
     simp only [step, opEvents, List.append_nil, List.not_mem_nil, false_imp_iff, implies_true, and_true]
     exact ⟨QInv_mono hq (Nat.le_add_right _ _), fun e he => Cover_mono (hcov e he) (Nat.le_add_right _ _), hsep⟩
@@ -1111,10 +1360,6 @@ theorem q_step (tg : String → Nat) (lo : Nat) (st : St) (op : Op) (hop : Order
       simp only [step, opEvents, List.append_nil, Bool.false_eq_true, if_false, List.not_mem_nil,
         false_imp_iff, implies_true, and_true]
       exact ⟨d1, fun e he => d2 e (List.mem_append_left _ he), hsep⟩
-
-theorem OrdersNodup_cons {op : Op} {ops : List Op} (h : OrdersNodup (op :: ops)) :
-    OrdersNodup [op] ∧ OrdersNodup ops :=
-  ⟨fun o ho => h o (by simp at ho; simp [ho]), fun o ho => h o (by simp [ho])⟩
 
 theorem handouts_sep_aux (tg : String → Nat) (lo : Nat) : ∀ (ops : List Op) (st : St) (H : List Ev),
     OrdersNodup ops → QInv lo st.now st.q → lo ≤ st.now →
